@@ -309,10 +309,19 @@ Expected ==
   ELSE IF sect = LayoutSect THEN [strong |-> Strong(shape)]
   ELSE [value |-> SectionValue(L0, Parts(tree), sect)]
 
+\* How a message reaches the mailbox it is fetched from is not an argument of SectionValue: what FETCH returns
+\* is a function of the stored bytes alone.  The harness runs every case of a group once per arrival path:
+\* "append" (APPEND into the mailbox), "recovered" (an APPEND the server refused - the literal is found in the
+\* recovery mailbox) and "movedout" (MOVE out of the recovery mailbox: the literal is stored again).
+\* Groups in a non-default shape take the plain path only (the dimensions are explored one at a time).
+Arrivals == IF Family = "fetch" /\ (shape = DefaultShape \/ shape.size # DefaultShape.size)
+            THEN <<"append", "recovered", "movedout">> ELSE <<"append">>
+
 PrintCase ==
   Emit =>
     IF Family = "structure" \/ sect = LayoutSect
-    THEN PrintT(ToJson([tree |-> tree, shape |-> shape, sect |-> sect, pc |-> pc, layout |-> L0, exp |-> Expected]))
+    THEN PrintT(ToJson([tree |-> tree, shape |-> shape, sect |-> sect, pc |-> pc, layout |-> L0, exp |-> Expected,
+                        arrivals |-> Arrivals]))
     ELSE PrintT(ToJson([tree |-> tree, shape |-> shape, sect |-> sect, pc |-> pc,
                         fields |-> IF sect.fs = 0 THEN <<>> ELSE FieldSetDef[sect.fs], exp |-> Expected]))
 
